@@ -78,22 +78,6 @@ theorem c17_trace (kinds : List Kind) (src : Src) (fuel k : Nat)
       ∀ N, (runTake kinds src fuel k).pulls ≤ N → PrimeRaised src [] kinds e N) :=
   (runTake_spec src fuel kinds k h).result
 
-theorem composeE_prefix : ∀ (b rest : List Kind) (xs ys : List V), composeE (b ++ rest) xs = .ok ys →
-    ∃ zs, composeE b xs = .ok zs := by
-  intro b
-  induction b with
-  | nil => intro rest xs ys _; exact ⟨xs, rfl⟩
-  | cons k b ih =>
-    intro rest xs ys h
-    simp only [List.cons_append, composeE] at h ⊢
-    obtain ⟨zs, hzs, h⟩ := except_bind_ok h
-    obtain ⟨ws, hws⟩ := ih rest zs ys h
-    exact ⟨ws, by simp [hzs, hws, bind, Except.bind]⟩
-
-theorem det_fin_full (kinds : List Kind) (xs : List V) :
-    det kinds (.fin xs none) xs.length = pipeTr kinds ⟨xs, .eof⟩ := by
-  simp [det, Src.pfx]
-
 /-- **Semantics (`c17_semantics`).**  For every stage list (of any length, stages in
     chaining order), every finite source and all user functions: if the composition of
     the list functions — `map, filter, takeWhile, dropWhile, slice, chunked, windowed,
